@@ -33,6 +33,8 @@ PROPS = {
                 preds=["EnvPrecedence", "CalledExact", "UntouchedKeepDefault"]),
     "C17": dict(families=["complete"], lens={"comps", "exits", "ran", "writer"}, rand=("C17", 6000, 150000),
                 preds=["CandidatesExact", "OfferedAccepted"]),
+    "C20": dict(families=["order", "complete"], lens={"nondet", "err", "derr", "comps", "warn"}, rand=[("C20", 4000, 100000), ("C20c", 2000, 50000)],
+                repeat=6, twice=True, preds=["FixedRule"]),
     "C09": dict(families=["term", "conserve"], lens={"rest", "vals", "called"}, rand=("C09", 6000, 150000),
                 preds=["StopRoles", "PrefixAsUnordered", "NoStopAsUnordered", "Frozen (action property)"]),
 }
@@ -62,6 +64,7 @@ MANIFEST_TEXT.update({
     "C10": _mt("DESIGN.md 5 C10", "ExactlyOneFn and DeepestCommand (the node reached by following exactly the tokens with ghost role cmd) checked by TLC over command trees with functions, own/inherited options, wrappers, require-order and help; the harness's instrumented CommandFns record which function ran how often, with which context, arguments and option view, and TLC validates that against the spec."),
     "C11": _mt("DESIGN.md 5 C11", "RequiredEnforced checked by TLC with required options at every level x custom messages x env binding x help by option, alias, abbreviation and help command; real Parse/Dispatch errors (errors.Is(ErrorParsing), custom message), help level and executed functions validated; which of several missing options is named is left open here (C20 fixes the rule)."),
     "C17": _mt("DESIGN.md 5 C17", "GetoptComp.tla mirrors the completion branch (earlier words parsed with the ordinary parser steps in the configured mode, candidates generated at the level reached); TLC checks CandidatesExact (the operational candidate list equals the declarative definition written from the property statement) and OfferedAccepted on every COMP_LINE up to the bound x bash/zsh; the real completion output (bag of candidates, sortedness, exactly one exit with 124, no command function run, nothing on Writer) is validated for every such line and random ones."),
+    "C20": _mt("DESIGN.md 5 C20", "In the specification every outcome is a function of (definition, input): the only place where the code consults an unordered table to choose a diagnostic (missing required option) is modelled with an explicit rule (first missing name in the level's sorted name list, FixedRule); TLC validates the exact diagnostic, and every case is executed 7 times in one process (Go re-randomises map iteration per range) and again in a fresh process, with a hash over every observable (values, remaining, full error text, Writer text incl. help, completion output) required to be identical."),
     "C12": _mt("DESIGN.md 5 C12", "EnvPrecedence with the definition-time environment step modelled before any command-line step, checked by TLC for every supported kind x env text class x CLI spelling; real values, Called and CalledAs validated."),
 })
 
@@ -117,8 +120,11 @@ def validate_trace(work, name, trace):
     return tlc_messages(out)
 
 
+DRIVER_ENV = dict(GOENV)
+
+
 def run_driver(gopt, args, trace):
-    p = subprocess.run([gopt] + args + ["-out", trace], stdout=subprocess.PIPE, stderr=subprocess.STDOUT, text=True, env=GOENV)
+    p = subprocess.run([gopt] + args + ["-out", trace], stdout=subprocess.PIPE, stderr=subprocess.STDOUT, text=True, env=DRIVER_ENV)
     info = {"cases": 0, "nontrivial": 0, "hang": None, "stats": {}}
     for line in p.stdout.splitlines():
         if line.startswith("STATS "):
@@ -152,7 +158,24 @@ def find_case(trace, cid):
     raise Broken("case %d not found in %s" % (cid, trace))
 
 
-def drive_and_validate(work, gopt, jobs):
+RE_HASH = None
+
+
+def raw_hashes(path):
+    import re
+    global RE_HASH
+    RE_HASH = RE_HASH or re.compile(r'"id":(\d+),.*"rawhash":"([0-9a-f]*)"')
+    out = {}
+    with open(path) as f:
+        for line in f:
+            if line.startswith('{"ev":"case"'):
+                m = RE_HASH.search(line)
+                if m:
+                    out[int(m.group(1))] = m.group(2)
+    return out
+
+
+def drive_and_validate(work, gopt, jobs, twice=False):
     """jobs: list of (name, driver-args). Runs drivers then validators in parallel; returns per-job results."""
     os.makedirs(os.path.join(work, "tr"), exist_ok=True)
     results = []
@@ -175,7 +198,18 @@ def drive_and_validate(work, gopt, jobs):
                         shutil.copyfileobj(f, out)
                     os.remove(part)
         msgs = validate_trace(work, name, trace) if info["cases"] > 0 else []
-        return dict(name=name, trace=trace, info=info, msgs=msgs)
+        cross = []
+        if twice:
+            # the same cases executed again by fresh processes: every observable (hash of all outputs) must be identical
+            h1 = raw_hashes(trace)
+            h2 = {}
+            for i, args in enumerate(arglists):
+                part = trace + ".again%d" % i
+                run_driver(gopt, args, part)
+                h2.update(raw_hashes(part))
+                os.remove(part)
+            cross = sorted(k for k in h1 if h2.get(k) != h1[k])
+        return dict(name=name, trace=trace, info=info, msgs=msgs, cross=cross)
 
     with ThreadPoolExecutor(max_workers=NSHARD) as ex:
         for r in ex.map(one, jobs):
@@ -192,6 +226,8 @@ def describe(defrec, case):
 def check(prop, tier, seed, work, replay, t0):
     P = PROPS[prop]
     gopt = build_harness(work)
+    if P.get("repeat"):
+        DRIVER_ENV["GOPT_REPEAT"] = str(P["repeat"])
     if replay:
         return do_replay(prop, P, gopt, work, replay)
     famdir = os.path.join(work, "fam")
@@ -210,13 +246,16 @@ def check(prop, tier, seed, work, replay, t0):
         transitions += gen
         for k in range(NSHARD):
             jobs[k][1].append(["enum", "-fam", famfile, "-L", str(maxlen), "-shard", str(k), "-of", str(NSHARD), "-idbase", str(fi * 50000000)])
-    if P.get("rand"):
-        rname, nq, nt = P["rand"]
+    rands = P.get("rand") or []
+    if rands and not isinstance(rands, list):
+        rands = [rands]
+    for ri, (rname, nq, nt) in enumerate(rands):
         n = nq if tier == "quick" else nt
         for k in range(NSHARD):
-            jobs[k][1].append(["rand", "-prop", rname, "-n", str(n // NSHARD + 1), "-seed", str(seed * 1000 + k)])
+            jobs[k][1].append(["rand", "-prop", rname, "-n", str(n // NSHARD + 1), "-seed", str(seed * 1000 + k),
+                               "-idbase", str(1000000000 + ri * 300000000)])
     t1 = time.time()
-    results = drive_and_validate(work, gopt, jobs)
+    results = drive_and_validate(work, gopt, jobs, twice=P.get("twice", False))
     log("conformance: %d trace files recorded from the real code and validated by TLC (%.0fs)" % (len(results), time.time() - t1))
 
     cases = sum(r["info"]["cases"] for r in results)
@@ -232,6 +271,8 @@ def check(prop, tier, seed, work, replay, t0):
     for r in results:
         if r["info"]["hang"]:
             violations.append(dict(kind="hang", trace=r["trace"], cid=None, fields=["hang"], exp=None, job=r["name"]))
+        for cid in r.get("cross", [])[:50]:
+            violations.append(dict(kind="crossproc", trace=r["trace"], cid=cid, fields=["nondet"], exp=None, job=r["name"]))
         for m in r["msgs"]:
             if m["k"] == "UNVERIFIABLE":
                 unverifiable += 1
@@ -354,7 +395,10 @@ def do_replay(prop, P, gopt, work, path):
     src = os.path.join(work, "replay-in.json")
     shutil.copy(path, src)
     trace = os.path.join(work, "replay.ndjson")
-    run([gopt, "rerun", "-in", src, "-out", trace], env=GOENV)
+    env = dict(DRIVER_ENV)
+    if P.get("repeat"):
+        env["GOPT_REPEAT"] = "40"
+    run([gopt, "rerun", "-in", src, "-out", trace], env=env)
     msgs = validate_trace(work, "replay", trace)
     bad = [m for m in msgs if m["k"] == "DIFF" and (set(m["fields"]) & (P["lens"] | {"panic", "hang"}))]
     d, c = None, None
